@@ -15,13 +15,14 @@ T_QUICK, T_THOROUGH = 70, 1500
 CLASSES = ["index-get", "index-set", "negative-index", "length", "shape", "int-length", "string-too-long",
            "bigger-items", "non-member", "wrong-context", "offset-no-buffer", "construct-shape", "struct-with-other-length",
            "struct-one-refused-field", "extra-dimensions", "mixed-bad-item", "sequence-for-scalar",
-           "construct-refused-while-writing"]
+           "construct-refused-while-writing", "hybrid-array-other-length"]
 FLOORS = {"attempts": 20000, "raised": 15000, "state_checks": 20000}
 FLOORS.update({"class:" + c: 300 for c in CLASSES})
 FLOORS["class:struct-with-other-length"] = 80
 FLOORS["class:struct-one-refused-field"] = 80
 FLOORS["class:mixed-bad-item"] = 100
 FLOORS["class:construct-refused-while-writing"] = 200
+FLOORS["hybrid_array_limited_view"] = 100
 FLOORS["union_object_at_offset_without_buffer"] = 300
 FLOORS.update({"negative_index_assignments": 100, "non_member_from_same_family": 50, "allocations_after_refusal": 5000,
                "hybrid_copy_with_contradictory_destination": 300, "refused_construction_at_explicit_offset": 100})
@@ -32,7 +33,7 @@ RULE = ("random type AST x value x placement with a neighbouring xobject; up to 
         "string needing more slots than fixed at creation (struct field and array item), same-shape list with a "
         "larger dynamic item (as plain data or as an xobject of the same class), a struct instance/dict whose nested dynamic array has "
         "another length, too-long strings also as multi-byte text whose character count would fit, non-member object or type name to a union reference, buffer of another context, "
-        "explicit offset without buffer, construction with a wrong static shape; oracle: an exception is raised AND "
+        "explicit offset without buffer, construction with a wrong static shape, a numeric array field of a dressed (hybrid) object assigned a sequence of another length (also with a limited exposed part); oracle: an exception is raised AND "
         "every previously live object re-reads equal to its model AND every previously live byte extent is unchanged. "
         "distinct = (name-erased AST, misuse class, position kind).")
 ASSUMPTIONS = ["negative indices are out-of-range cases only on static-item arrays (dynamic-item arrays resolve them numpy-style)",
@@ -128,6 +129,21 @@ def _hybrid():
     if not _HY:
         _HY.append(type("XvC11Hybrid", (xo.HybridClass,), {"_xofields": {"a": xo.Float64, "b": xo.Int64[:]}}))
     return _HY[0]
+
+
+_HYA = {}
+
+
+def _hybrid_arr(sn, limited):
+    """Hybrid class with one numeric array field (exposed as a numpy-like view), optionally with the
+    `_lim_arrays_name` attribute that exposes only the first `nused` items."""
+    key = (sn, limited)
+    if key not in _HYA:
+        ns = {"_xofields": {"k": xo.Int32, "x": getattr(xo, sn)[:], "tail": xo.Int64}}
+        if limited:
+            ns["_lim_arrays_name"] = "nused"
+        _HYA[key] = type(f"XvC11HyArr{sn}{'L' if limited else ''}", (xo.HybridClass,), ns)
+    return _HYA[key]
 
 
 def _index(cur, idx):
@@ -392,6 +408,33 @@ def _plan(cls_, rng, c, allnodes, env):
             hy.copy(_context=ctxs()[0], _buffer=other)
         _W[0].count("hybrid_copy_with_contradictory_destination")
         return "root", "hybrid.copy(_context=<context A>, _buffer=<buffer of context B>)", fn
+    if cls_ == "hybrid-array-other-length":
+        # a numeric array field of a dressed object, assigned a list / ndarray whose length is neither 1 (numpy
+        # broadcasting) nor the length of what the field exposes
+        sn = rng.choice(["Float64", "Int64", "Int32", "Float32", "UInt8", "Int16"])
+        limited = rng.random() < 0.5
+        n = rng.randint(3, 9)
+        vals = [rng.randint(1, 100) for _ in range(n)]
+        hy = _hybrid_arr(sn, limited)(k=7, x=vals, tail=-3, _buffer=env.buf)
+        env.repoison()
+        shown = n
+        if limited:
+            shown = rng.randint(2, n - 1)
+            hy.nused = shown
+            _W[0].count("hybrid_array_limited_view")
+        m = rng.choice([x for x in range(2, n + 4) if x != shown])
+        newv = [rng.randint(101, 120) for _ in range(m)]
+        if rng.random() < 0.5:
+            newv = np.array(newv, dtype=rng.choice(["int64", "float64"]))
+
+        def fn(base):
+            try:
+                hy.x = newv
+            finally:
+                got = [int(v) for v in hy._xobject.x.to_nplike()]
+                if got != vals or hy._xobject.k != 7 or hy._xobject.tail != -3:
+                    raise AssertionError  # (the byte comparison of the live regions reports it)
+        return "hybrid-field", f"hybrid.x = {type(newv).__name__} of {m} items (field has {n}, exposes {shown})", fn
     if cls_ == "wrong-context":
         other = ctxs()[1].new_buffer(256)
 
